@@ -435,7 +435,7 @@ fn ctap_level(rep: &mut Report, seed: u64, idx: u64) {
 fn gen_history(rng: &mut Rng) -> Vec<Op> {
     let mut ops = Vec::new();
     let n_reg = rng.range(1, 3);
-    let origin = OriginSpec { scheme: "https", host: "example.com".into(), port: None };
+    let origin = OriginSpec { scheme: "https", host: "example.com".into(), port: None, android: None };
     let uv_out = |rng: &mut Rng| if rng.chance(1, 3) { UvOutcome::Check { presence: true, verification: false } } else { UvOutcome::Check { presence: true, verification: true } };
     let uvr = |rng: &mut Rng| *rng.pick(&[UserVerificationRequirement::Required, UserVerificationRequirement::Preferred, UserVerificationRequirement::Discouraged, UserVerificationRequirement::Discouraged]);
     for i in 0..n_reg {
